@@ -266,6 +266,25 @@ claim('C06',
       'provenance / paired-update / sweep-structure rules on the line routine + exact bearing-table evaluation',
       'DESIGN.md §4 C06')
 
+claim('C05',
+      'Partial, static. The event helpers are interpreted symbolically and their decision tables evaluated exactly '
+      '(values are touched only through comparisons with the viewpoint, so one representative cell per sector is '
+      'exhaustive): T1 for all 8 sectors x {ENTER, EXIT} the event position offset is exactly half the neighbour '
+      'row/col offset; T2 the ENTER / EXIT corner is the first / last of the cell\'s four corners in the sweep order; '
+      'T3 the angle function equals atan2(-dy, dx) mod 2pi on the 5 axis cases and 4 quadrants, and every call site '
+      'passes (col, row) as (x, y); T4 record layouts (AE_x == E_x - 3, the :3 / 3: split, array widths 7/8/4/7, >= 40 '
+      'constant field subscripts inside their record); T5 output encoding (INVISIBLE = -1 fill, observer 180, visible '
+      'cells written under max gradient <= own gradient with the vertical angle whose three branches are evaluated: '
+      '90 level, (0,90) below, (90,180) above, from sqrt of the squared-distance key); T6 ew_res scales column and '
+      'ns_res row differences, resolutions from width-1 / height-1; T7 events sorted by angle then type with EXIT < '
+      'CENTER < ENTER; T8 observer cell by nearest-coordinate selection; T10 the observer elevation is formed after '
+      'widening to float. NOT decided (declined): that the red-black tree with augmented maxima returns the true '
+      'maximum gradient after every insert/delete order, hence that the sweep marks exactly the visible cells.',
+      'Trusted: math.atan/atan2 for table values. The declined core needs balanced-tree invariants over unbounded '
+      'insert/delete histories - no sound static argument in reach.',
+      'symbolic interpretation + exhaustive sign-case evaluation of decision tables; layout/axis-role rules',
+      'DESIGN.md §4 C05')
+
 ALL = ['C%02d' % i for i in range(1, 20)]
 
 
